@@ -10,7 +10,7 @@
    table's object name and service file name) this is the chain from a reference to the real names.  The reading of a Volume= /
    Mount= / Network= value into a reference is decided by the direct oracle plus correspondence of the Process model. *)
 From Coq Require Import Sorting.Sorted Sorting.Permutation.
-From QV Require Import Model.Base Generated.Tables Model.Unit Model.Path Model.Names Model.Convert Model.Quote Model.Process Spec.Names Proofs.C07 Proofs.C08 Proofs.C09run Proofs.C08run.
+From QV Require Import Model.Base Generated.Tables Model.Unit Model.Path Model.Names Model.Convert Model.Quote Model.Process Spec.Names Proofs.C07 Proofs.C08 Proofs.C09run Proofs.C08run Proofs.Prio.
 
 Theorem C08_storage_source : forall unit_path svc src tbl check_image,
   starts_with [cDOT] src = false -> starts_with [cSLASH] src = false ->
@@ -83,3 +83,14 @@ Proof. exact network_creates. Qed.
 Theorem C08_lower_priority_first : forall l1 y l2 x,
   Sorted.StronglySorted (fun a b => prio a <= prio b)%N (l1 ++ y :: l2) -> In x (l1 ++ y :: l2) -> (prio x < prio y)%N -> In x l1.
 Proof. exact lower_priority_first. Qed.
+
+(* the model's type priorities are those of main.rs today (regenerated table) ... *)
+Theorem C08_priority_table : length priority_table = 7%nat /\ forall t, assoc_str (type_name t) priority_table = Some (type_priority t).
+Proof. exact priority_table_ok. Qed.
+
+(* ... and they convert every referenced unit type before the types that can refer to it *)
+Theorem C08_referenced_types_first :
+  (type_priority TImage < type_priority TVolume)%N /\
+  (forall a b, In a [TImage; TNetwork; TVolume] -> In b [TBuild; TContainer; TKube; TPod] -> (type_priority a < type_priority b)%N) /\
+  (type_priority TBuild < type_priority TContainer)%N.
+Proof. exact referenced_types_first. Qed.
